@@ -68,7 +68,7 @@ def precondOp (args : List String) : String :=
         match snap with
         | some sn =>
           if s.err.isSome then go s snap t ("-" :: acc) else
-          go (loadInto c s sn true (o.toList.getD 2 (Char.ofNat 48) == (Char.ofNat 49))) snap t ("-" :: acc)
+          go (loadInto' c s sn true (o.toList.getD 2 (Char.ofNat 48) == (Char.ofNat 49))) snap t ("-" :: acc)
         | none => go s snap t ("bad-op" :: acc)
       else if o == "f1" then go (exec c s (.fwdBwd true)) snap t ("-" :: acc)
       else if o == "f0" then go (exec c s (.fwdBwd false)) snap t ("-" :: acc)
@@ -90,7 +90,9 @@ def precondOp (args : List String) : String :=
         let eq := (worldRanks c).all fun r => f r == f 0
         go s' snap t (s!"V steps={s'.steps} eq={showBool eq} f={f 0}" :: acc)
       else if o.startsWith "l" then
-        let s' := exec c s (.saveLoad (o.toList.getD 1 (Char.ofNat 48) == (Char.ofNat 49)) (o.toList.getD 2 (Char.ofNat 48) == (Char.ofNat 49)))
+        let inclF := o.toList.getD 1 (Char.ofNat 48) == (Char.ofNat 49)
+        let s1 := exec c s (.save inclF)
+        let s' := if s1.err.isSome then s1 else loadInto' c s1 s1 inclF (o.toList.getD 2 (Char.ofNat 48) == (Char.ofNat 49))
         go s' snap t ("-" :: acc)
       else if o.startsWith "h:" then
         go (exec c s (.setHyper (parseHyper ((o.drop 2).toString.replace "/" "|" |>.replace "%" "/")))) snap t ("-" :: acc)
